@@ -229,7 +229,7 @@ theorem acceptStr_verbatim (p : Str → Bool) : ∀ a b, acceptStr p a = some b 
 
 /-- Every scalar type that occurs meets the scalar clauses of `WF`. -/
 theorem leaf_wf (l : Leaf) : WF l.schema := by
-  cases l <;> simp only [Leaf.schema, Leaf.accepts]
+  cases l <;> simp only [Leaf.schema]
   all_goals first
     | exact wf_str (acceptStr_idem _)
     | exact wf_int _ _
@@ -241,7 +241,7 @@ theorem leaf_wf (l : Leaf) : WF l.schema := by
 
 /-- Every scalar type is a `Schema.scalar`. -/
 theorem leaf_scalar (l : Leaf) : ∃ norm, l.schema = .scalar norm := by
-  cases l <;> simp only [Leaf.schema, Leaf.accepts] <;> exact ⟨_, rfl⟩
+  cases l <;> simp only [Leaf.schema] <;> exact ⟨_, rfl⟩
 
 /-- The statement of `leaf_wf` spelled out for the names the harness uses: what a leaf writes back
 it reads back unchanged, and it writes `null` only for `null`. -/
@@ -306,7 +306,7 @@ theorem verbatim_voip : ∃ n, Schema.voipVersion = .scalar n ∧ Verbatim n := 
 lenient power-level reader (writes the integer), writes back exactly the scalar it read. -/
 theorem leaf_verbatim (l : Leaf) (h1 : l ≠ .base64) (h2 : l ≠ .float) (h3 : l ≠ .intLax) :
     ∃ norm, l.schema = .scalar norm ∧ Verbatim norm := by
-  cases l <;> simp only [Leaf.schema, Leaf.accepts]
+  cases l <;> simp only [Leaf.schema]
   all_goals first
     | exact verbatim_str (acceptStr_verbatim _)
     | exact verbatim_int _ _
